@@ -33,21 +33,24 @@ type World struct {
 	// FailReq: request positions (publisher index, chain index, occurrence)
 	// answered with 500.
 	FailReq map[string]bool
+	// StallBlock: block requests (publisher index, chain index) that are never
+	// answered: the handler waits until the request is cancelled.
+	StallBlock map[string]bool
 }
 
 // Options for New.
 type Options struct {
-	Pubs      int
-	ChainLen  int
-	SubOpts   []dagsync.Option
-	Announce  bool // configure an announce receiver
-	NoWarmup  bool
-	NoLatest  bool // do not record the warm-up advertisement as latest synced
+	Pubs     int
+	ChainLen int
+	SubOpts  []dagsync.Option
+	Announce bool // configure an announce receiver
+	NoWarmup bool
+	NoLatest bool // do not record the warm-up advertisement as latest synced
 	// Prestore copies every chain block into the destination store before the
 	// explored part: syncs then make no block requests (stored blocks are
 	// reported, not requested), which removes blocking points that properties
 	// about notifications and shutdown do not care about.
-	Prestore bool
+	Prestore  bool
 	KeyOffset int
 }
 
@@ -55,7 +58,7 @@ type Options struct {
 // subscriber, a listener, and one warm-up sync of the oldest advertisement of
 // every publisher (explicit head: it fixes no latest-synced value).
 func New(e *sched.Exec, o Options) *World {
-	w := &World{World: syncfx.NewWorld(), E: e, FailReq: map[string]bool{}}
+	w := &World{World: syncfx.NewWorld(), E: e, FailReq: map[string]bool{}, StallBlock: map[string]bool{}}
 	for i := 0; i < o.Pubs; i++ {
 		id := fixture.Key("ed25519", o.KeyOffset+i)
 		p := w.AddPub(id, true)
@@ -110,6 +113,9 @@ func New(e *sched.Exec, o Options) *World {
 		}
 		p.After = func(rq *syncfx.Req) { e.Log("pub%d req-end %s", pi, reqWhat(ch, rq)) }
 		p.Script = func(rq *syncfx.Req) *syncfx.Fault {
+			if rq.Kind == "block" && w.StallBlock[fmt.Sprintf("%d|%d", pi, ch.Index(rq.Cid))] {
+				return &syncfx.Fault{Kind: "stall"}
+			}
 			if w.FailReq[fmt.Sprintf("%d|%d|%d", pi, ch.Index(rq.Cid), rq.N)] && rq.Kind == "block" {
 				return &syncfx.Fault{Kind: "status", Status: 500}
 			}
@@ -187,10 +193,10 @@ type SyncSpan struct {
 
 // ParseLog extracts per-publisher request brackets and hook calls.
 type LogView struct {
-	Hooks    map[int][]int            // per publisher: chain indices in hook order
-	HookTags map[int][]string         // per publisher: tag of each hook call
-	HookPos  map[int][]int            // per publisher: log position of each hook call
-	ReqPos   map[int][][2]int         // per publisher: [begin,end] log positions of requests
+	Hooks    map[int][]int    // per publisher: chain indices in hook order
+	HookTags map[int][]string // per publisher: tag of each hook call
+	HookPos  map[int][]int    // per publisher: log position of each hook call
+	ReqPos   map[int][][2]int // per publisher: [begin,end] log positions of requests
 	ReqWhat  map[int][]string
 	Lines    []string
 }
